@@ -118,6 +118,25 @@ CLAIMED["C17"] = dict(
         "schedule, not by trace replay). Trusted: Coq kernel, translator, harness incl. verifPoint parking, python oracle. No axioms.",
    technique="Rocq proof of range soundness, touched-file set and mutual exclusion over all schedules of a protocol model; refutation witness; differential correspondence + forced schedules",
    design="6/C17")
+CLAIMED["C04"] = dict(
+   text="Theorem C04_linearizable (coq/props/C04.v): in the interleaving model (model/Sched.v: writers, flusher and hint dumper are atomic steps "
+        "-- they run under the bucket write lock / chunk lock; a get or meta-get is TWO steps, position lookup then positional read, with arbitrary "
+        "steps of other clients, flushes, hint dumps and file rotations in between), for ALL configurations, collision-free key sets, numbers of "
+        "clients and interleavings of any length, the replies equal those of the concurrent reference specification in which writes take effect "
+        "atomically in schedule order and each read answers the reference map at its lookup step, i.e. at a point inside its invocation/response "
+        "interval (linearizability with explicit linearization points; proof: simulation + 'the data log is append-only under every client "
+        "operation' so a looked-up position keeps its record). On the reference map: accepted auto-revision sets and deletes give a key strictly "
+        "larger absolute versions, touch no other key, and after any history each key holds the highest version (C04_versions_increase, "
+        "C04_other_keys_untouched, C04_final_is_highest). Tie to the code: readers of the real store are parked between lookup and positional "
+        "read (verifPoint get.looked) while other clients write / rotate / flush / dump; the recorded event traces are replayed on the same "
+        "c_step function inside Coq with every reply compared (60 traces per quick run), plus a seeded stress suite (2..8 client goroutines, "
+        "flusher+dumper loop, yield injection at every verifPoint) judged by a sound per-key register oracle (stale / future / unwritten reads, "
+        "version uniqueness and order, final value).",
+   note="PARTIAL: the lock-granular atomicity of writers / flusher is an assumption of the model validated by schedules, not proved of the Go "
+        "code; data races below lock granularity (buffer free vs. copy) are outside any executable model -- the stress suite can only sample them. "
+        "Concurrent incr excluded by the property. Trusted: Coq kernel, harness incl. verifPoint parking, python oracle. No axioms.",
+   technique="Rocq proof of linearizability of an interleaving model (simulation with explicit linearization points, append-only log lemma); forced-schedule differential replay + stress with register oracle",
+   design="6/C04")
 NOT_YET = {}
 props = [json.loads(l) for l in open(os.path.join(V, "properties.jsonl"))]
 checks = []
